@@ -77,6 +77,23 @@ TV_NOTE = ("Trusted: TLC and the CommunityModules overrides; the harness encoder
 NOT_APPLICABLE = {}
 
 PROPS = {
+    "C06": dict(level="model_checking", nontrivial=nt_c06,
+                text="Every Apply / FilteredApply / WithRowNums call of the generated scenarios (programs of up to 8 instructions over every supported signature, "
+                     "constants, column copies, built-in ToUpper, sources and destinations overlapping, on frames with arbitrary physical index; every FilteredApply "
+                     "clause shape of C02) is executed on the real library and compared by TLC with ApplySem / FilteredApplySem / WithRowNumsSem (spec/ApplyEval.tla), "
+                     "where functions are uninterpreted symbols given by tables, so that which function is applied to which cells in which order, the result "
+                     "type, the column position and the untouched rest of the frame are all decided by the specification.",
+                note=TV_NOTE + " FilteredApply with constant / column-copy / built-in instructions and ToUpper on enum columns are Unspecified (DESIGN.md 7, D15).",
+                technique="TLA+ specification (ApplyEval.tla) + TLC trace validation of harness executions",
+                rule="random frames (derived by sort/slice/filter/distinct) x random instruction lists; non-trivial = the result has >=1 row; distinct by (instructions, result digest)"),
+    "C07": dict(level="model_checking", nontrivial=nt_c07,
+                text="Every Eval call of the generated scenarios (type-directed random expression trees of depth <=3 quick / <=6 thorough with unary, binary and n-ary calls, "
+                     "constants on either side of non-commutative functions, user-registered functions, destinations equal to sources or to names shaped like the "
+                     "evaluator's temporaries, frames that already own such names, malformed and ill-typed expressions) is executed on the real library and compared "
+                     "by TLC with EvalSem (spec/ApplyEval.tla): left fold, operands in the order written, context lookup by name/arity/operand type, result = the "
+                     "receiver plus/with-replaced dst and nothing else.",
+                note=TV_NOTE, technique="TLA+ specification (ApplyEval.tla EvalSem) + TLC trace validation of harness executions",
+                rule="random frames x random expression trees; non-trivial = a call expression evaluated on >=1 row; distinct by (expression, destination, result digest)"),
     "C04": dict(level="model_checking", nontrivial=nt_c04,
                 text="Every GroupBy / Aggregate / QFrames call of the generated scenarios (key cardinality 1..3000 crossing each doubling of the hash table, all key "
                      "types and multi-column keys, both Null settings, -0.0/+0.0, NaN payloads, null vs empty string, built-in and user aggregations, As renaming, "
